@@ -84,6 +84,12 @@ func (s MsgSpec) Build() *fbb.Message {
 	if s.P2POnly {
 		m.Header.Set("X-P2POnly", "true")
 	}
+	// every other message carries extension fields of the application's own (forms, trackers and gateways add such
+	// fields): they are part of the message, not of the mailbox's book-keeping
+	if (len(s.MID)+len(s.Tag)+s.BodyLen)%2 == 0 {
+		m.Header.Set("X-Location", "60.1N 5.3E (GPS)")
+		m.Header.Set("X-Source", "N0SRC")
+	}
 	return m
 }
 
@@ -279,9 +285,29 @@ func ReadTree(root string) (map[string][]byte, error) {
 		if err != nil {
 			return err
 		}
-		// a symbolic link to a regular file is recorded with the content seen through its name
+		// a symbolic link to a regular file is recorded with the content seen through its name; a symbolic link to a
+		// directory (a folder kept on another disk) is read through, its files recorded under the link's name
 		if info.Mode()&os.ModeSymlink != 0 {
-			if st, err := os.Stat(p); err != nil || !st.Mode().IsRegular() {
+			st, err := os.Stat(p)
+			if err != nil {
+				return nil
+			}
+			if st.IsDir() && p != root {
+				target, err := filepath.EvalSymlinks(p)
+				if err != nil {
+					return nil
+				}
+				sub, err := ReadTree(target)
+				if err != nil {
+					return err
+				}
+				rel, _ := filepath.Rel(root, p)
+				for k, v := range sub {
+					out[filepath.Join(rel, k)] = v
+				}
+				return nil
+			}
+			if !st.Mode().IsRegular() {
 				return nil
 			}
 		} else if !info.Mode().IsRegular() {
